@@ -18,7 +18,7 @@ func init() {
 			"is cut by a decryption success edge and by a destination-validation success edge; the payload and address sent are results 0 and 1 of that validation, applied to this datagram's plaintext; inside the validation the IP validator sees the resolved address that " +
 			"is returned, and the payload is exactly the bytes after the parsed address; (KEYBIND) an existing association decrypts with the key bound to the entry found, that key never changes, Add binds the key that decrypted the first datagram and replies are packed with the " +
 			"association's key; (NOALIAS/OWNBUF) trial decryption writes into a buffer distinct from the ciphertext and both are owned by the listener loop, reply buffers are owned by the association goroutine; (REPLYADDR) each reply carries " +
-			"socks.ParseAddr(String()) of this iteration's source and is sent, as packed, to the association's own client address; (SEARCH) the key search tries every key.",
+			"socks.ParseAddr(String()) of this iteration's source and is sent, as packed, to the association's own client address, and the buffer replies are read into reaches the very end of the packet buffer Pack encrypts in, so an oversize reply fails to pack instead of being relayed cut short; (SEARCH) the key search tries every key.",
 		NotDecided: "AEAD correctness, fresh-salt randomness (SDK Pack), byte equality of relayed payloads.",
 	})
 	register(&PropDef{ID: "C04", Level: "other", Run: runC04,
@@ -37,7 +37,7 @@ func init() {
 	})
 	register(&PropDef{ID: "C16", Level: "other", Run: runC16,
 		Explanation: "Call discipline of UDP metrics on all paths: (ENTRY) Add reports the new association exactly once with the key id of the search that authenticated it, removal is reported exactly once (TEARDOWN); (CLIENT) per loop iteration the client packet is reported at most once, " +
-			"exactly when an association exists, with this iteration's ReadFrom size and this iteration's target write size held in a per-iteration variable (zero when nothing was sent) and a status that is \"OK\" or the error's status; (TARGET) per reply iteration the target packet is reported " +
+			"exactly when an association exists (an association found or created is recorded in the tested variable on every path from that point), with this iteration's ReadFrom size and this iteration's target write size held in a per-iteration variable (zero when nothing was sent) and a status that is \"OK\" or the error's status; (TARGET) per reply iteration the target packet is reported " +
 			"exactly once unless the loop expired, with this iteration's read size and the byte count returned by the write to the client, both per-iteration variables; (ARITY) every WithLabelValues in the metrics adapters passes as many values as the vector has variable labels; (WIRING) the four sizes map to the c>p, p>t, p<t, c<p direction labels.",
 		NotDecided: "numeric equality of per-key sums with the bytes on the sockets.",
 	})
